@@ -51,6 +51,13 @@ func eval(p *Program, q *big.Int, lenient bool) (res Result) {
 			failed = true
 			res.Why = fmt.Sprintf("op %d %s: %s", i, p.Ops[i].Op, why)
 			res.FailAt = i
+			// a failure that depends on the documented-unconstrained 0/0 quotient is not a
+			// verdict about the constraints: a prover may pick another quotient
+			for _, k := range p.Ops[i].A {
+				if tainted[k] {
+					res.Free = true
+				}
+			}
 		}
 		if !lenient {
 			res.Slots = slots
